@@ -95,7 +95,7 @@ def _search_chunk(args):
     return oracles.compare_witness(cases, H, "del", style_seed=seed)
 
 def search(ctx, deep):
-    n = (100 if ctx.tier == "quick" else 1200) * (3 if deep else 1)
+    n = (240 if ctx.tier == "quick" else 1200) * (3 if deep else 1)
     H = 3
     cases = corpus_cases() + confusable_cases(ctx.seed * 61 + 3, n // 2) + gen_cases(ctx.seed * 79 + 7, n, 2 if ctx.tier == "quick" else 3)
     hinted = [(d["forms"], ATOMS) for d in getattr(ctx, "hints", []) if "forms" in d][:50]
